@@ -539,6 +539,18 @@ def c07(run, selftest=True):
         receiver_stage(run, fo, {"panic"}, False, "C07 totality")
     # unions, empty enums and every other body against every supports(..) declaration: only panics count here
     shapes_stage(run, False, only_panics=True)
+    # the built-in conversions: every syntax-valued target x every fragment (keywords, oversized literals, groups ..),
+    # every scalar target x every boundary literal - again only panics count (C11 / C13 own the rest)
+    frags = run.path("fragments.ndjson")
+    run.vh("fragments", frags)
+    for module, spec_name, cfg, env in (("syntargets", "SynTargets", simple_cfg("C13_Matrix EmitDone"), {"FRAGMENTS": frags}),
+                                       ("scalars", "Scalars", simple_cfg("C11_Exact EmitDone"), None)):
+        res = run.tlc(spec_name, cfg, "c07_" + module, workers=4, env=env)
+        run.require_tlc_ok(res, spec_name)
+        r = run.vh("replay", module, res["out"], timeout=3000)
+        keep = [m for m in r.get("prop", []) if any("panicked" in w for w in m.get("why", []))]
+        run.add_replay_result(module, dict(r, prop=keep, prop_mismatch=len(keep)))
+        os.remove(res["out"])
     run.assumptions = RECV_ASSUME + ["a panic inside the code under test is caught with catch_unwind and reported as a violation with the input as replay file"]
     return run.finish("model_checking", RECV_RULE + " For C07 the inputs include bodies that are not meta syntax at every depth, bare / name-value attributes, "
                       "flags in every form, and receivers whose attrs member has nothing to receive; only panics count.")
